@@ -79,7 +79,7 @@ def decodePair (hi lo : Nat) : Nat := (hi - 0xD800) * 1024 + lo - 0xDC00 + 0x100
 inductive Item
   | one (u : Nat)            -- `if (remaining == 0) flush; *pos++ = u`
   | atom (us : List Nat)     -- `if (remaining < n) flush; copy n units` (no direct path)
-  | bulk (us : List Nat)     -- `if (n > size) { flush; direct } else { if (remaining < n) flush; copy }`
+  | bulk (us : List Nat)     -- `if (n > size) { [flush;] direct } else { if (remaining < n) flush; copy }` (the flush: `Sink.fbd`)
   | flushIfFull              -- `if (remaining == 0) flush` with nothing stored after it
   deriving DecidableEq, Repr
 
@@ -96,9 +96,13 @@ structure Sink where
   cap : Nat
   chunks : List (List Nat)   -- delivered, oldest first (flushBuffer delivers even an empty buffer)
   buf : List Nat
+  fbd : Bool                 -- the bulk write calls `flushBuffer()` before handing a long run directly downstream (generated)
   deriving Repr, DecidableEq
 
-def Sink.empty (cap : Nat) : Sink := ⟨cap, [], []⟩
+/-- the buffer of the code as intended: flush before a direct write -/
+def Sink.empty (cap : Nat) : Sink := ⟨cap, [], [], true⟩
+/-- the buffer as the working tree has it -/
+def Sink.emptyF (cap : Nat) (fbd : Bool) : Sink := ⟨cap, [], [], fbd⟩
 def Sink.remaining (s : Sink) : Nat := s.cap - s.buf.length
 def Sink.flush (s : Sink) : Sink := { s with chunks := s.chunks ++ [s.buf], buf := [] }
 
@@ -110,7 +114,8 @@ def Sink.step (s : Sink) : Item → Option Sink
   | .one u => (if s.remaining = 0 then s.flush else s).store [u]
   | .atom us => (if s.remaining < us.length then s.flush else s).store us
   | .bulk us =>
-    if us.length > s.cap then some { s.flush with chunks := s.flush.chunks ++ [us] }
+    if us.length > s.cap then
+      some { (if s.fbd then s.flush else s) with chunks := (if s.fbd then s.flush else s).chunks ++ [us] }
     else (if s.remaining < us.length then s.flush else s).store us
   | .flushIfFull => some (if s.remaining = 0 then s.flush else s)
 
@@ -120,8 +125,11 @@ def Sink.run : List Item → Sink → Option Sink
 
 /-- `XalanOutputStream::write(const XalanDOMChar*, n)`: the second buffer receives each chunk of the
 writer as one bulk write; `flush()` at the end of the document. -/
+def streamChunksF (cap : Nat) (fbd : Bool) (writerChunks : List (List Nat)) : Option (List (List Nat)) :=
+  (Sink.run (writerChunks.map Item.bulk) (Sink.emptyF cap fbd)).map fun s => s.flush.chunks
+
 def streamChunks (cap : Nat) (writerChunks : List (List Nat)) : Option (List (List Nat)) :=
-  (Sink.run (writerChunks.map Item.bulk) (Sink.empty cap)).map fun s => s.flush.chunks
+  streamChunksF cap true writerChunks
 
 /-! ## the three writers -/
 
@@ -632,9 +640,16 @@ def bufferSize : WK → Nat
   | .utf16 => kBufferSizeUTF16
   | .other => kBufferSizeOther
 
+/-- does the writer's bulk `write(chars, n)` flush before a direct write? (read from the source; the transcoding
+writer has no bulk path, so no `.bulk` item ever reaches its buffer) -/
+def bulkFlush : WK → Bool
+  | .utf8 => bulkFlushUTF8
+  | .utf16 => bulkFlushUTF16
+  | .other => true
+
 /-- chunks the writer hands to `Writer::write` (endDocument's `flushBuffer` included) -/
 def writerChunks (k : WK) (items : List Item) : Except Err (List (List Nat)) :=
-  match Sink.run items (Sink.empty (bufferSize k)) with
+  match Sink.run items (Sink.emptyF (bufferSize k) (bulkFlush k)) with
   | some s => .ok s.flush.chunks
   | none => .error .mem
 
